@@ -105,9 +105,7 @@ def finish(ctx, level_explanation, trusted_base, files, replay_key=None, quiet=F
     """Label findings, write evidence + replay files, print the protocol lines, return the exit code."""
     from .model import AnalysisError
 
-    for name, count, floor in ctx.floors:
-        if count < floor:
-            raise AnalysisError(f"instance floor missed: {name} = {count} < {floor} (a rule matching nothing must not pass)")
+    missed = [f"{name} = {count} < {floor}" for name, count, floor in ctx.floors if count < floor]
     known = load_known()
     known_keys = {(k["property"], k["key"]): k for k in known.get("known", [])}
     viol, kf = [], []
@@ -121,6 +119,11 @@ def finish(ctx, level_explanation, trusted_base, files, replay_key=None, quiet=F
         else:
             viol.append(f)
     official = os.path.abspath(ctx.root) == "/repo" and replay_key is None and not quiet and not os.environ.get("VERIF_NOEVIDENCE")
+    if missed and not viol:
+        # nothing was reported and a rule lost its instances: never a silent pass
+        raise AnalysisError(f"instance floor missed: {'; '.join(missed)} (a rule matching nothing must not pass)")
+    for mline in missed:
+        ctx.note(f"instance floor missed while violations were found: {mline}")
     if official:
         fdir = os.path.join(VERIF, "evidence", "findings")
     else:
